@@ -390,10 +390,12 @@ def run(ck):
         v = str(v)
         if v in ('0', 'EEAV_NO_ERROR'): return 'zero'
         if re.fullmatch(r'-EEAV_\w+', v): return 'negative'
+        if re.fullmatch(r'-\(.+ \? EEAV_\w+ : EEAV_\w+\)', v): return 'negative'          # -(cond ? EEAV_a : EEAV_b)
         if v == 'TLD_TYPE_SPECIAL': return 'class'
         if re.fullmatch(r"is_tld#\d+'*", v): return 'class-or-negative'          # row.type or -EEAV_TLD_INVALID (C07 R7.2)
         if re.fullmatch(r"is_(ascii_domain|\d+_local|utf8_domain)#\d+'*", v): return 'validator'   # 0 / negative by their own returns (C15 T15.2) or classified below
-        return None
+        if re.fullmatch(r"EEAV_\w+|TLD_TYPE_\w+|[1-9]\d*", v): return None                # a positive constant that is not a class
+        raise AnalysisBroken(f'the value {v} handed to the class switch comes from something R6.6 has no model for (e.g. a helper function): cannot judge whether abort() is reachable; re-confirm')
     for b in BACKENDS:
         k = f'partial/{b}/is_utf8_domain.c'
         eng, ups = cfgpaths.summarise(tus[k], 'is_utf8_domain')
